@@ -31,6 +31,16 @@ def frameOps : List String → Option String
     pure (String.intercalate ";" ((session cs).map fun
       | .call o n => Outcome.show (o, n)
       | .abandoned n => s!"A {n}"))
+  | ["sessionx", steps] => do
+    -- steps joined by ',': f<hex> bytes arrive | c calls until one blocks (abandoned) | x one call, abandoned at Frame.create if it gets there
+    let st ← (steps.splitOn ",").mapM fun w =>
+      if w = "c" then some Step.calls
+      else if w = "x" then some Step.callAbandonedAtCreate
+      else if w.startsWith "f" then (parseHex (String.ofList (w.toList.drop 1))).map Step.feed
+      else none
+    pure (String.intercalate ";" ((sessionX [] st).map fun
+      | .call o n => Outcome.show (o, n)
+      | .abandoned n => s!"A {n}"))
   | ["readchunks", eager, chunks] => do
     -- chunks joined by '+' ('-' = an empty chunk); eager: '-' or comma-separated numbers of chunks that have arrived before call i.
     -- answer per call: outcome, consumed, '@', the suspensions of that call (S|H|B + bytes buffered while it waits)
